@@ -284,8 +284,27 @@ func BuildNode(idx int, g *genesis.Genesis, key *ecdsa.PrivateKey, base kaidb.Da
 }
 
 // Start starts consensus through the real OnStart (WAL catch-up replay included).
-func (n *Node) Start() error {
-	if err := n.CS.Start(); err != nil {
+func (n *Node) Start() error { return n.StartWith(n.CS.Start) }
+
+// StartViaSwitch starts consensus the way a node with block sync enabled does: the block-sync reactor hands over to
+// ConsensusManager.SwitchToConsensus (here: no block was synced, so the WAL must be replayed).
+func (n *Node) StartViaSwitch() error {
+	return n.StartWith(func() (err error) {
+		defer func() {
+			if p := recover(); p != nil {
+				err = fmt.Errorf("panic: %v", p)
+			}
+		}()
+		mgr := consensus.NewConsensusManager(n.CS, &configs.FastSyncConfig{Enable: true})
+		mgr.SetEventBus(n.Bus)
+		mgr.SwitchToConsensus(n.CS.VerifState(), false)
+		return nil
+	})
+}
+
+// StartWith starts consensus through start (which must end up in the real OnStart).
+func (n *Node) StartWith(start func() error) error {
+	if err := start(); err != nil {
 		n.Dead, n.DeadWhy = true, "start: "+err.Error()
 		return err
 	}
